@@ -16,6 +16,7 @@ mod c11;
 mod c02;
 mod c03;
 mod c09;
+mod c07;
 
 use util::Ctx;
 
@@ -53,6 +54,7 @@ fn main() {
         ("gen", "C02") => c02::gen(&mut ctx),
         ("gen", "C03") => c03::gen(&mut ctx),
         ("gen", "C09") => c09::gen(&mut ctx),
+        ("gen", "C07") => c07::gen(&mut ctx),
         _ => { eprintln!("unknown command"); std::process::exit(2); }
     }
     ctx.finish(stats.as_deref());
